@@ -128,16 +128,17 @@ Proof.
   - destruct D as [D|[D1 D2]]; [now left|right]. rewrite F3, F6. auto.
 Qed.
 
-(* ---- a triple ---- *)
-Theorem encode_triple_valid (terms : list term) (t t' : tenc) (rp rp' : repeated) (rows : list row) (ss : sstate) :
-  JS t rp ss -> phys ss = 1 ->
+(* ---- a triple: the part common to TRIPLES streams and to triples inside a graph ---- *)
+Lemma encode_triple_core (terms : list term) (t t' : tenc) (rp rp' : repeated) (rows : list row) (ss : sstate) :
+  JS t rp ss ->
   encode_triple Generic terms t rp = Ok (t', rp', rows) ->
-  exists s p o rest ss',
-    terms = s :: p :: o :: rest /\
-    steps rows ss = SOk (ss', [ETriple (norm s) (norm p) (norm o)]) /\
-    JS t' rp' ss' /\ s_opts ss' = s_opts ss /\ s_open ss' = s_open ss.
+  exists s p o rest ws wp wo entries s3 sc,
+    terms = s :: p :: o :: rest /\ rows = entries ++ [RTriple ws wp wo] /\
+    steps entries ss = SOk (s3, []) /\ nontab_eq ss s3 /\
+    spo ws wp wo s3 = SOk (sc, norm s, norm p, norm o) /\ frame_eq s3 sc /\
+    JS t' rp' (upd_prev sc (Some (norm s)) (Some (norm p)) (Some (norm o)) (s_pg sc)).
 Proof.
-  intros HJS Hphys. unfold encode_triple, bind, nth_term.
+  intros HJS. unfold encode_triple, bind, nth_term.
   destruct terms as [|s [|p [|o rest]]]; cbn [nth_error]; try discriminate.
   - destruct (encode_slot Generic (Encoder.r_s rp) s (start_statement t)) as [[[[? ?] ?] ?]|]; discriminate.
   - destruct (encode_slot Generic (Encoder.r_s rp) s (start_statement t)) as [[[[t1 ?] ?] ?]|]; [|discriminate].
@@ -150,13 +151,10 @@ Proof.
     destruct (encode_slot Generic (Encoder.r_o rp) o t2) as [[[[t3 r3] wo] po]|] eqn:Eo; [|discriminate].
     destruct (encode_slot_valid _ _ _ _ _ _ _ _ J2 Eo) as (s3 & S3 & J3 & N3 & St3 & D3 & P3).
     intros H; inversion H; subst t' rp' rows; clear H.
-    exists s, p, o, rest.
-    (* all entry rows first *)
     assert (Hent : steps (r1 ++ r2 ++ r3) ss = SOk (s3, [])) by (rewrite steps_app, S1, steps_app, S2, S3; reflexivity).
     assert (Nall : nontab_eq ss s3) by (eapply nontab_trans; [exact N1|]; eapply nontab_trans; eassumption).
     destruct HJS as [A B C HLp HLn Hps Hpp Hpo Hpg].
-    unfold nontab_eq in Nall. destruct Nall as (NO & NP & NN & NS & NPp & NPo & NG & NOp).
-    (* then the statement row, resolved against the final tables *)
+    pose proof Nall as Nall'. unfold nontab_eq in Nall'. destruct Nall' as (NO & NP & NN & NS & NPp & NPo & NG & NOp).
     assert (HL0p : s_last_pid s3 = fst (Lt (start_statement t))) by (cbn; congruence).
     assert (HL0n : s_last_nid s3 = snd (Lt (start_statement t))) by (cbn; congruence).
     destruct (slot_resolves _ _ t3 _ _ _ _ s3 D1 (stable_trans _ _ _ St2 St3) J3 HL0p HL0n) as (sa & Ea & Fa & Pa & Na).
@@ -166,11 +164,10 @@ Proof.
     destruct (slot_resolves _ _ t3 _ _ _ _ sb D3 (stable_refl _) J3b Pb Nb) as (sc & Ec & Fc & Pc & Nc).
     pose proof (J_frame _ _ _ J3b Fc) as J3c.
     assert (Fall : frame_eq s3 sc) by (eapply frame_trans; [exact Fa|]; eapply frame_trans; eassumption).
-    eexists. split; [reflexivity|]. split; [|split; [|split]].
-    + rewrite !app_assoc. rewrite steps_app. rewrite <- !app_assoc. rewrite Hent. cbn [steps step].
-      unfold phys in *. rewrite NO, Hphys. cbn [N.eqb Pos.eqb]. unfold spo, sbind.
-      rewrite NS, Hps, Ea. cbn iota beta.
-      rewrite NPp, Hpp, Eb. cbn iota beta. rewrite NPo, Hpo, Ec. cbn. reflexivity.
+    exists s, p, o, rest, ws, wp, wo, (r1 ++ r2 ++ r3), s3, sc.
+    split; [reflexivity|]. split; [now rewrite <- !app_assoc|]. split; [exact Hent|]. split; [exact Nall|].
+    split; [|split; [exact Fall|]].
+    + unfold spo, sbind. rewrite NS, Hps, Ea. cbn iota beta. rewrite NPp, Hpp, Eb. cbn iota beta. rewrite NPo, Hpo, Ec. reflexivity.
     + destruct J3c as [Jn _ Jp Jd]. unfold frame_eq in Fall.
       refine {| js_n := _; js_p := _; js_d := _; js_lp := _; js_ln := _; js_s := _; js_pp := _; js_o := _; js_g := _ |}; cbn.
       * exact Jn.
@@ -182,8 +179,44 @@ Proof.
       * congruence.
       * congruence.
       * destruct Fall as (_ & _ & _ & _ & _ & _ & _ & _ & _ & _ & Fg & _). congruence.
-    + cbn. unfold frame_eq in Fall. destruct Fall as (F0 & _). congruence.
-    + cbn. unfold frame_eq in Fall. destruct Fall as (_ & _ & _ & _ & _ & _ & _ & _ & _ & _ & _ & Fo). congruence.
+Qed.
+
+(* ---- a triple of a TRIPLES stream ---- *)
+Theorem encode_triple_valid (terms : list term) (t t' : tenc) (rp rp' : repeated) (rows : list row) (ss : sstate) :
+  JS t rp ss -> phys ss = 1 ->
+  encode_triple Generic terms t rp = Ok (t', rp', rows) ->
+  exists s p o rest ss',
+    terms = s :: p :: o :: rest /\
+    steps rows ss = SOk (ss', [ETriple (norm s) (norm p) (norm o)]) /\
+    JS t' rp' ss' /\ s_opts ss' = s_opts ss /\ s_open ss' = s_open ss.
+Proof.
+  intros HJS Hphys Henc.
+  destruct (encode_triple_core _ _ _ _ _ _ _ HJS Henc) as (s & p & o & rest & ws & wp & wo & entries & s3 & sc & Ht & Hr & Hent & Nall & Hspo & Fall & HJ').
+  exists s, p, o, rest. eexists. split; [exact Ht|]. subst rows.
+  unfold nontab_eq in Nall. destruct Nall as (NO & _ & _ & _ & _ & _ & _ & NOp).
+  unfold frame_eq in Fall. destruct Fall as (F0 & _ & _ & _ & _ & _ & _ & _ & _ & _ & _ & Fo).
+  split; [|split; [exact HJ'|split; cbn; congruence]].
+  rewrite steps_app, Hent. cbn [steps step]. unfold phys in *. rewrite NO, Hphys. cbn [N.eqb Pos.eqb].
+  unfold sbind. rewrite Hspo. reflexivity.
+Qed.
+
+(* ---- a triple inside an open graph of a GRAPHS stream ---- *)
+Theorem encode_triple_valid_in_graph (terms : list term) (t t' : tenc) (rp rp' : repeated) (rows : list row) (ss : sstate) (g0 : term) :
+  JS t rp ss -> phys ss = 3 -> s_open ss = Some g0 ->
+  encode_triple Generic terms t rp = Ok (t', rp', rows) ->
+  exists s p o rest ss',
+    terms = s :: p :: o :: rest /\
+    steps rows ss = SOk (ss', [EQuad (norm s) (norm p) (norm o) g0]) /\
+    JS t' rp' ss' /\ s_opts ss' = s_opts ss /\ s_open ss' = Some g0.
+Proof.
+  intros HJS Hphys Hopen Henc.
+  destruct (encode_triple_core _ _ _ _ _ _ _ HJS Henc) as (s & p & o & rest & ws & wp & wo & entries & s3 & sc & Ht & Hr & Hent & Nall & Hspo & Fall & HJ').
+  exists s, p, o, rest. eexists. split; [exact Ht|]. subst rows.
+  unfold nontab_eq in Nall. destruct Nall as (NO & _ & _ & _ & _ & _ & _ & NOp).
+  unfold frame_eq in Fall. destruct Fall as (F0 & _ & _ & _ & _ & _ & _ & _ & _ & _ & _ & Fo).
+  split; [|split; [exact HJ'|split; cbn; congruence]].
+  rewrite steps_app, Hent. cbn [steps step]. unfold phys in *. rewrite NO, Hphys. cbn [N.eqb Pos.eqb].
+  rewrite NOp, Hopen. unfold sbind. rewrite Hspo. reflexivity.
 Qed.
 
 (* ---- a quad ---- *)
